@@ -224,7 +224,8 @@ pub fn setup<'a>(tape: &'a mut Tape, props: Props, trace_on: bool, mode: Mode) -
         0 => Some(0u8),
         1 => None,
         2 => Some(tape.range(1, 14) as u8),
-        _ => Some(7),
+        // (a shift count above 14 is legal on the wire and means 14: RFC 7323 2.3)
+        _ => Some(*tape.pick(&[7u8, 7, 14, 15, 255])),
     };
     let p_mss = match tape.draw(8) {
         0 => Some(1460u16),
@@ -874,8 +875,29 @@ fn sender_body(c: &mut Ctx, su: &Setup, thorough: bool) -> Result<(), Violation>
             if new_win == 0 {
                 c.stats.inc("c05.win-zero");
             }
-            let t = Tcp { seq: c.irs.wrapping_add(1), ack: new_ack, flags: F_ACK, win: win_raw, ..Tcp::default() };
-            c.log(|| format!("P tx ACK off={} win={}", new_ack_off, new_win));
+            let mut t = Tcp { seq: c.irs.wrapping_add(1), ack: new_ack, flags: F_ACK, win: win_raw, ..Tcp::default() };
+            // sometimes the ACK carries one to four SACK blocks (out-of-order data the receiver holds, or duplicates
+            // it saw): whatever the sender makes of them, the ACK number and window of that segment count
+            if c.tape.draw(6) == 0 {
+                let nb = 1 + c.tape.draw(4) as usize;
+                let top = max_sent_off.max(2 * nb as i64 + 2) as u64;
+                let mut cuts: Vec<u64> = (0..2 * nb).map(|_| 1 + c.tape.draw(top)).collect();
+                cuts.sort();
+                cuts.dedup();
+                for pair in cuts.chunks(2) {
+                    if pair.len() == 2 {
+                        t.opts.sack.push((iss.wrapping_add(pair[0] as u32), iss.wrapping_add(pair[1] as u32)));
+                    }
+                }
+                c.stats.inc(match t.opts.sack.len() {
+                    0 => "c05.ack-with-sack-blocks.0",
+                    1 => "c05.ack-with-sack-blocks.1",
+                    2 => "c05.ack-with-sack-blocks.2",
+                    3 => "c05.ack-with-sack-blocks.3",
+                    _ => "c05.ack-with-sack-blocks.4",
+                });
+            }
+            c.log(|| format!("P tx ACK off={} win={} sack={:?}", new_ack_off, new_win, t.opts.sack));
             let f = c.seg(&t);
             cur_ack = new_ack;
             cur_win = new_win;
@@ -904,6 +926,9 @@ fn sender_body(c: &mut Ctx, su: &Setup, thorough: bool) -> Result<(), Violation>
 enum Stim {
     Api(&'static str),
     Seg { syn: bool, fin: bool, rst: bool, ack: Option<u32>, seq: u32, len: u32 },
+    /// a segment that is not addressed to this socket: broadcast / multicast IP destination, another destination
+    /// port, or (for a socket that has a remote endpoint) another remote port or address
+    Foreign(&'static str),
     Egress,
 }
 
@@ -1110,8 +1135,53 @@ fn states_body(c: &mut Ctx, su: &Setup, thorough: bool) -> Result<(), Violation>
                     flags |= F_ACK;
                 }
                 let t = Tcp { seq, ack: ack.unwrap_or(0), flags, win: *c.tape.pick(&[8192u16, 0, 100, 65535]), payload, opts: if syn { TcpOpts { mss: c.p_mss, wscale: c.p_ws, ..TcpOpts::default() } } else { TcpOpts::default() }, ..Tcp::default() };
-                stim = Stim::Seg { syn, fin, rst, ack, seq, len };
-                let f = c.seg(&t);
+                let has_remote = !matches!(before, Listen | Closed);
+                let foreign: Option<&'static str> = if c.tape.draw(8) == 0 {
+                    match c.tape.draw(5) {
+                        0 => Some("directed-broadcast-or-all-nodes-destination"),
+                        1 => Some("limited-broadcast-or-all-nodes-destination"),
+                        2 => Some("another-destination-port"),
+                        3 if has_remote => Some("another-remote-port"),
+                        4 if has_remote => Some("another-remote-address"),
+                        _ => None,
+                    }
+                } else {
+                    None
+                };
+                let f = match foreign {
+                    None => {
+                        stim = Stim::Seg { syn, fin, rst, ack, seq, len };
+                        c.seg(&t)
+                    }
+                    Some(what) => {
+                        stim = Stim::Foreign(what);
+                        c.stats.inc("c17.foreign-segments");
+                        let mut t = t.clone();
+                        t.sport = c.p_port;
+                        t.dport = c.v_port;
+                        let (mut src, mut dst) = (c.p_addr, c.v_addr);
+                        match what {
+                            "directed-broadcast-or-all-nodes-destination" => dst = if su.v6 { IpAddr::V6([0xff, 2, 0, 0, 0, 0, 0, 0, 0, 0, 0, 0, 0, 0, 0, 1]) } else { IpAddr::V4([10, 0, 0, 255]) },
+                            "limited-broadcast-or-all-nodes-destination" => dst = if su.v6 { IpAddr::V6([0xff, 2, 0, 0, 0, 0, 0, 0, 0, 0, 0, 0, 0, 0, 0, 1]) } else { IpAddr::V4([255, 255, 255, 255]) },
+                            "another-destination-port" => t.dport = c.v_port.wrapping_add(1),
+                            "another-remote-port" => t.sport = c.p_port.wrapping_add(1),
+                            _ => {
+                                src = match src {
+                                    IpAddr::V4(mut a) => {
+                                        a[3] = a[3].wrapping_add(7);
+                                        IpAddr::V4(a)
+                                    }
+                                    IpAddr::V6(mut a) => {
+                                        a[15] = a[15].wrapping_add(7);
+                                        IpAddr::V6(a)
+                                    }
+                                }
+                            }
+                        }
+                        let l4 = enc_tcp(&src, &dst, &t);
+                        enc_ip(&src, &dst, P_TCP, 64, &l4)
+                    }
+                };
                 let q0 = c.sock().recv_queue();
                 let fr = c.inject(f)?;
                 let _ = fr;
@@ -1140,6 +1210,7 @@ fn states_body(c: &mut Ctx, su: &Setup, thorough: bool) -> Result<(), Violation>
             let kind = match &stim {
                 Stim::Api(n) => format!("api-{}", n),
                 Stim::Egress => "egress".to_string(),
+                Stim::Foreign(w) => format!("foreign-segment/{}", w),
                 Stim::Seg { syn, fin, rst, ack, .. } => format!("seg{}{}{}{}", if *syn { "+syn" } else { "" }, if *fin { "+fin" } else { "" }, if *rst { "+rst" } else { "" }, if ack.is_some() { "+ack" } else { "" }),
             };
             Err(viol(
@@ -1173,6 +1244,9 @@ fn states_body(c: &mut Ctx, su: &Setup, thorough: bool) -> Result<(), Violation>
                 if !ok {
                     return bad("api call off its documented edge");
                 }
+            }
+            Stim::Foreign(_) => {
+                return bad("a segment that is not addressed to this socket changed its state");
             }
             Stim::Egress => {
                 let ok = match (before, after) {
